@@ -2005,6 +2005,11 @@ func (h *fsmHandler) established(ctx context.Context) (bgp.FSMState, *fsmStateRe
 	// reset the write deadline that was set in the connection establishment.
 	fsm.conn.SetWriteDeadline(time.Time{})
 
+	// a NOTIFICATION queued while no session was established (ShutdownPeer/ResetPeer
+	// on a peer that is not up, or left over from the previous session) must not
+	// tear down this new session.
+	drainChannel(fsm.notification)
+
 	ioCtx, cancel := context.WithCancel(ctx)
 	wg := &sync.WaitGroup{}
 	wg.Add(2)
